@@ -619,6 +619,26 @@ def gen_hists(tier, rng, entries):
                                           step_tok(rng.choice([v for v in vias_for(a) if not (a['generic'] and v == 'SX')] or ['SM']), a)
                                           if c['id'] != a['id'] and [v for v in vias_for(a) if not (a['generic'] and v == 'SX')] else 'R']))
                 H.append(('reuse:two-objects', [tokf('D', 0, a), tokf('D', 1, b2), 'A~0', 'A~1', 'C~0', tokf('RD', 0, c), 'R', 'A~0' if c['id'] != b2['id'] else 'R']))
+    # lane 10: the patch package used directly — guards created first, applied / unpatched later, interleaved
+    gable = [e for e in entries if e['m'][0].isupper() and (e['pk'] == 'pa' or e['exported_type'])]
+    gn = lambda h, e: f'GN~{h}~{e["pkg"]}~{e["T"]}~{1 if e["ptr"] else 0}~{e["m"]}~{e["id"]}'
+    for _ in range(120 if tier == 'quick' else 1500):
+        n = 2 + rng.below(3)
+        es = []
+        while len(es) < n:
+            e = rng.choice(gable)
+            if all(call_sym(e) != call_sym(o) for o in es):
+                es.append(e)
+        steps = [gn(h, e) for h, e in enumerate(es)]          # all guards first ...
+        order = list(range(n))
+        for i in range(n - 1, 0, -1):
+            j = rng.below(i + 1)
+            order[i], order[j] = order[j], order[i]
+        steps += [f'GA~{h}' for h in order]                   # ... applied in a random order ...
+        for _ in range(rng.below(3)):                         # ... some unpatched / re-applied / re-created afterwards
+            h = rng.below(n)
+            steps.append(rng.choice([f'GU~{h}', f'GA~{h}', gn(h, es[h])]))
+        H.append(('guards', steps))
     # lane 5: the C06-K1 follow-up, oracle only (the Lean model does not cover a patched generic wrapper)
     gex = [e for e in entries if e['generic'] and e['m'][0].isupper()]
     for e in gex[:4 if tier == 'quick' else 20]:
@@ -661,6 +681,45 @@ def step_target(tok, entries, index):
     return None
 
 
+def guard_oracle(steps, res, hits, after, entries, index, name):
+    """patch-level guards: a method runs the callback given when the guard that was applied last to it was CREATED."""
+    made = {}        # guard variable -> (entry, creation step)
+    live = {}        # call symbol -> (entry id, callback)
+    for k, tok in enumerate(steps):
+        f = tok.split('~')
+        if f[0] == 'GN':
+            e = index.get((f[2], f[3], f[4] == '1', f[5])) if f[5][:1].isupper() else None
+            if e is None:
+                continue
+            if res[k] != 'ok':
+                return f'step {k} `{tok}` names an existing method with the right receiver kind but was answered {res[k]}'
+            made[f[1]] = (e, k)
+            live.pop(call_sym(e), None)       # replaceFunc unpatches an earlier patch of the same entry
+        elif f[1] in made:
+            e, k0 = made[f[1]]
+            if res[k] != 'ok':
+                return f'step {k} `{tok}` was answered {res[k]}'
+            if f[0] == 'GA':
+                live[call_sym(e)] = (e['id'], k0)
+            elif live.get(call_sym(e), (None, None))[1] == k0:
+                live.pop(call_sym(e), None)
+    for i, h in hits.items():
+        e = entries[i]
+        a = live.get(call_sym(e)) or (live.get(call_sym(entries[e['base_id']])) if e.get('promoted') else None)
+        if a is None:
+            return f'{name(e)} does not run its original body ({"/".join(h["t"])}) although no applied guard names it (steps: {" ; ".join(steps)})'
+        if h['t'] != ['k%d' % a[1]] * 3:
+            return f'{name(e)} shows {"/".join(h["t"])}, but the guard applied to it was created with the callback of step {a[1]}'
+        if not h['rok']:
+            return f'callback {a[1]} for {name(e)} did not receive the caller\'s receiver unchanged as first argument'
+    for sym, (i, k0) in live.items():
+        if i not in hits:
+            return f'{name(entries[i])}: the guard created in step {k0} was applied but the method still runs its original body'
+    if after != 'clean':
+        return 'after unpatching every guard some method does not run its original body'
+    return None
+
+
 def oracle(steps, obs, entries, index):
     """The property on the implementation's observation, by a property-level reading of the history that does not use the
     Lean model: a method is *currently mocked* by the last arming call (Apply / Return / Returns / When..Return) on a lookup
@@ -674,6 +733,8 @@ def oracle(steps, obs, entries, index):
     if len(res) != len(steps):
         return f'result list does not match the steps: {obs[:200]}', None, notes
     name = lambda e: f'{e["pkg"]}.{e["go"]}.{e["m"]}'
+    if steps and steps[0].startswith('GN~'):
+        return guard_oracle(steps, res, hits, after, entries, index, name), None, notes
     armed = {}        # call symbol -> {'kind': 'cb'|'stub', 'k': step, 'vals': set, 'targets': set(entry ids)}
     handles = {}      # handle -> entry or None
     direct = set()    # handles of mockers made with the exported constructors
@@ -822,13 +883,31 @@ def entry_tok(e):
             f'~{e["base_id"] if e.get("promoted") else "-"}')
 
 
-def run_impl(binary, ops_path, n, tag):
-    """Run the probe; a crash loses only the op it happened in."""
+PROBE_ENV = {'GOOM_DEBUG': '', 'GOTRACEBACK': 'single', 'GODEBUG': '', 'GOGC': ''}   # scrub goom / runtime knobs of the caller
+PROBE_TIMEOUT = 7200       # typical wall time of the whole stream: 5-60 s
+
+
+def probe_once(binary, ops_path, outp, start):
+    """One run of the probe from op `start`; a timeout is retried once and is never an observation."""
+    for attempt in (0, 1):
+        try:
+            rc, log = C.run_probe(binary, 'TestVerifC06', ops_path, outp, env=dict(PROBE_ENV, VERIF_C06_FROM=str(start)), timeout=PROBE_TIMEOUT)
+        except subprocess.TimeoutExpired:
+            rc, log = -1, 'test timed out (killed by the check)'
+        if 'test timed out' not in log:
+            return rc, log
+        C.log(f'C06: probe timed out from op {start} (attempt {attempt + 1})')
+    raise C.Infra('C06 probe timed out twice (machine overloaded?); nothing can be said about the property')
+
+
+def run_impl(binary, ops_path, n, tag, ops=None):
+    """Run the probe; a crash loses only the op it happened in.  An op whose answer is a crash or `before=dirty` (a leak of
+    the op before it) is run again alone in a fresh process: only what reproduces there is reported for it."""
     impl = [None] * n
     outp = os.path.join(C.BUILD, f'{tag}.impl')
     start, crashes = 0, 0
     while start < n:
-        rc, log = C.run_probe(binary, 'TestVerifC06', ops_path, outp, env={'VERIF_C06_FROM': str(start)}, timeout=1500)
+        rc, log = probe_once(binary, ops_path, outp, start)
         got = C.read_indexed(outp, n)
         last = start - 1
         for i in range(start, n):
@@ -839,20 +918,35 @@ def run_impl(binary, ops_path, n, tag):
             break
         crashes += 1
         sig = re.search(r'(SIGSEGV|SIGBUS|SIGILL|SIGTRAP|fatal error: [^\n]*|panic: [^\n]*)', log)
-        impl[last + 1 if last + 1 < n else n - 1] = 'crash:' + (sig.group(1)[:60].replace(' ', '-') if sig else f'rc{rc}')
+        if last + 1 < n:
+            impl[last + 1] = 'crash:' + (sig.group(1)[:60].replace(' ', '-') if sig else f'rc{rc}')
         start = last + 2
         if crashes > 50:
             raise C.Infra('C06 probe keeps crashing:\n' + log[-2000:])
+    if ops is not None:
+        suspects = [i for i in range(n) if impl[i] is not None and (impl[i].startswith('crash:') or impl[i].startswith('before=dirty'))]
+        for i in suspects[:20]:
+            one = os.path.join(C.BUILD, f'{tag}.one.ops')
+            open(one, 'w').write(ops[i] + '\n')
+            rc, log = probe_once(binary, one, outp + '.one', 0)
+            again = C.read_indexed(outp + '.one', 1)[0]
+            if again is not None:
+                impl[i] = again                      # did not reproduce in isolation (or gives its real answer)
+            elif rc == 0:
+                raise C.Infra('C06 probe answered nothing for a single op')
+    missing = [i for i in range(n) if impl[i] is None]
+    if missing:
+        raise C.Infra(f'C06 probe left {len(missing)} of {n} operations unanswered (first: {missing[0]})')
     return impl
 
 
 def execute(hists, entries, syms, binary, tag='c06'):
     tail = ' | ' + ' '.join(entry_tok(e) for e in entries) + ' | ' + ' '.join(syms)
     # '@' abbreviates the common import-path prefix BASE on the wire (expanded again by the probe and by the driver)
-    ops = [('c06.hist ' + ' '.join(steps) + tail).replace(BASE, '@') for steps in hists]
+    ops = [(('c06.guard ' if steps and steps[0].startswith('GN~') else 'c06.hist ') + ' '.join(steps) + tail).replace(BASE, '@') for steps in hists]
     ops_path = os.path.join(C.BUILD, f'{tag}.ops')
     open(ops_path, 'w').write('\n'.join(ops) + '\n')
-    impl = run_impl(binary, ops_path, len(ops), tag)
+    impl = run_impl(binary, ops_path, len(ops), tag, ops)
     exe, err = C.build_driver()
     model = C.run_driver(exe, ops_path, os.path.join(C.BUILD, f'{tag}.model')) if exe else None
     return impl, model, err
@@ -874,6 +968,11 @@ def run(tier):
     index = {(e['pkg'], e['T'], e['ptr'], e['m']): e for e in entries}
     lanes = gen_hists(tier, rng.fork('hist'), entries)
     hists = [s for _, s in lanes]
+    lane_floor = collections.Counter(l.split(':')[0] for l, _ in lanes)
+    for need in ('single', 'malformed-method', 'malformed-type', 'malformed-pkg', 'collide-pkgname', 'siblings', 'random', 'template', 'handle',
+                 'reuse', 'guards', 'k1-poison'):
+        if lane_floor[need] < 3:
+            raise C.Infra(f'C06 generator produced no `{need}` histories: the corpus/generator is broken, nothing was checked')
     impl, model, derr = execute(hists, entries, syms, binary)
     bad, notes = [], collections.Counter()
     for i, steps in enumerate(hists):
